@@ -65,7 +65,10 @@ def xiseven_odd(number, odd=False):
         return number
     if number is sh.EMPTY:
         number = 0
-    v = int(_text2num(number)) % 2
+    try:
+        v = int(_text2num(number)) % 2
+    except (ValueError, TypeError):
+        return Error.errors['#VALUE!']
     return v != 0 if odd else v == 0
 
 
